@@ -164,6 +164,29 @@ def _same(a, b):
     return a == b
 
 
+REPLAY_COPY = common.REPLAY_HEADER + '''
+common.use_repo_with_build()
+import numpy as np
+from pysph.base.utils import get_particle_array
+import pysph.base.nnps as N
+from cyarray.carray import LongArray
+rng = np.random.RandomState(3)
+a = get_particle_array(name="a", x=rng.rand(40), y=rng.rand(40), z=rng.rand(40), h=0.1)
+b = get_particle_array(name="b", x=rng.rand(17), y=rng.rand(17), z=rng.rand(17), h=0.1)
+nn = getattr(N, %(cls)r)(dim=3, particles=[a, b], radius_scale=2.0)
+bad = None
+for ctx in ((0, 0), (1, 1), (0, 1)):
+    nn.set_context(*ctx)
+    for i, n in ((0, 40), (1, 17)):
+        idx = LongArray()
+        nn.get_spatially_ordered_indices(i, idx)
+        got = sorted(int(v) for v in idx.get_npy_array())
+        if got != list(range(n)):
+            bad = "context %%r: ordered indices of array %%d are not a permutation of 0..%%d: %%r" %% (ctx, i, n - 1, got[:50])
+sys.exit(common.replay_exit(bad))
+'''
+
+
 def unit_copy_loops():
     """z-order / stratified SFC / octree: the ordered index list is a copy of
     the algorithm's sorted particle-id array (a permutation by contract)"""
@@ -173,6 +196,7 @@ def unit_copy_loops():
     out = dict(unit="pids copy loops (z_order, stratified_sfc, octree)",
                obligations=0, discharged=0, undecided=[])
     M = NM.base_module()
+    reported = set()
     for cls in ("ZOrderNNPS", "StratifiedSFCNNPS", "OctreeNNPS"):
         name = cls + ".get_spatially_ordered_indices"
         try:
@@ -185,17 +209,35 @@ def unit_copy_loops():
             out["obligations"] += 1
             pa = NM.RecPA("a", dict(x=[0.0] * 3, y=[0.0] * 3, z=[0.0] * 3,
                                     h=[1.0] * 3, gid=[0] * 3, tag=[0] * 3))
-            tree = types.SimpleNamespace(num_particles=3, pids=list(perm))
-            me = types.SimpleNamespace(pa_wrappers=[NM.Wrapper(pa)],
-                                       pids=[list(perm)], tree=[tree])
+            pb = NM.RecPA("b", dict(x=[0.0] * 5, y=[0.0] * 5, z=[0.0] * 5,
+                                    h=[1.0] * 5, gid=[0] * 5, tag=[0] * 5))
+            other = [4, 3, 2, 1, 0]
+            trees = [types.SimpleNamespace(num_particles=5, pids=other),
+                     types.SimpleNamespace(num_particles=3, pids=list(perm))]
+            # the search context points at array 0 (the *other* array): the
+            # ordered indices of array 1 must still come from array 1
+            me = types.SimpleNamespace(
+                pa_wrappers=[NM.Wrapper(pb), NM.Wrapper(pa)],
+                pids=[other, list(perm)], tree=trees, current_pids=other,
+                current_tree=trees[0], src_index=0, dst_index=0)
             idx = NM.SymArray()
             idx.set_data([7, 7])           # stale content must be dropped
-            fn(me, 0, idx)
-            if [int(i) for i in idx.data] == list(perm):
+            try:
+                fn(me, 1, idx)
+                got = [int(i) for i in idx.data]
+            except Exception as e:
+                got = "raised %r" % (e,)
+            if got == list(perm):
                 out["discharged"] += 1
-            else:
-                out.setdefault("harness_errors", []).append(
-                    "%s returns %r for pids %r" % (name, idx.data, perm))
+            elif ("copy", cls) not in reported:
+                reported.add(("copy", cls))
+                p = common.write_replay(PID, "copy_%s" % cls,
+                                        REPLAY_COPY % dict(cls=cls))
+                common.triage(PID, out, "%s.get_spatially_ordered_indices("
+                              "1) returns %r for the sorted pids %r of array "
+                              "1 (search context on array 0)" % (
+                                  cls, got, list(perm)), p,
+                              dict(unit=name))
     out["stats"] = stats.as_dict()
     return out
 
